@@ -299,6 +299,216 @@ Proof.
     unfold wfobjs in *. apply Forall_app. apply Forall_app in Hwf2. tauto.
 Qed.
 
+(* ---- what is in force INSIDE the blocks: the model refines a reference stack semantics ------------------ *)
+(* specification of a context object: its parts (class, arguments put in force by entering it) *)
+Definition sobj := list (cid * list val).
+Variable kind_of : cid -> kind.
+Variable pinit : cid -> list val -> slotvec -> option (list val).
+Hypothesis effect_law : forall c args sv0 o sv sv1 o1,
+  pinit c args sv0 = Some o -> penter c sv o = Some (sv1, o1) -> spec_enter (kind_of c) args sv = Some sv1.
+(* entering an object does not change what a later enter of the same object (re-entry, re-use) does to the slots *)
+Hypothesis reenter_law : forall c sv o sv1 o1 sv' sv2 o2,
+  penter c sv o = Some (sv1, o1) -> penter c sv' o1 = Some (sv2, o2) -> exists o2', penter c sv' o = Some (sv2, o2').
+Variable spec_new : kid -> list val -> option sobj.
+Variable args_ok : kid -> list val -> bool.
+
+(* an object state o of class c "carries" the constructor arguments args: whenever it is entered, the slots
+   become what spec_enter prescribes for args *)
+Definition carries (c : cid) (args : list val) (o : list val) : Prop :=
+  forall sv sv1 o1, penter c sv o = Some (sv1, o1) -> spec_enter (kind_of c) args sv = Some sv1.
+Definition carries_ps (sp : sobj) (ps : list pobj) : Prop :=
+  Forall2 (fun q p => fst q = fst p /\ carries (fst p) (snd q) (snd p)) sp ps.
+Hypothesis new_carries : forall k a g ps, args_ok k a = true -> new k a g = Some ps ->
+  exists sp, spec_new k a = Some sp /\ carries_ps sp ps.
+
+Lemma carries_init c args sv0 o : pinit c args sv0 = Some o -> carries c args o.
+Proof. intros H sv sv1 o1 He. eapply effect_law; eauto. Qed.
+Lemma carries_enter c args o sv sv1 o1 : carries c args o -> penter c sv o = Some (sv1, o1) -> carries c args o1.
+Proof.
+  intros H He sv' sv2 o2 H2. destruct (reenter_law _ _ _ _ _ _ _ _ He H2) as [o2' H3]. eapply H; eauto.
+Qed.
+
+(* the effect the specification ascribes to entering an object *)
+Fixpoint spec_parts (sp : sobj) (g : gs) : option gs :=
+  match sp with
+  | [] => Some g
+  | (c, args) :: r => match spec_enter (kind_of c) args (get c g) with
+                      | Some sv => spec_parts r (set c sv g)
+                      | None => None
+                      end
+  end.
+
+Lemma enter_parts_spec sp ps : carries_ps sp ps -> forall g g1 ps1,
+  enter_parts ps g = Some (g1, ps1) -> spec_parts sp g = Some g1 /\ carries_ps sp ps1.
+Proof.
+  unfold enter_parts. induction 1 as [|[c' args] [c o] sp' ps' [Hc Hcar] HF IH]; simpl; intros g g1 ps1 He.
+  - inversion He; subst. split; [reflexivity|constructor].
+  - simpl in Hc, Hcar. subst c'.
+    destruct (penter c (get c g) o) as [[sv1 o1]|] eqn:Ee; [|discriminate].
+    destruct (walk penter ps' (set c sv1 g)) as [[g2 r2]|] eqn:E; [|discriminate].
+    inversion He; subst.
+    rewrite (Hcar _ _ _ Ee).
+    destruct (IH _ _ _ E) as [Hs Hc2]. split; [exact Hs|].
+    constructor; [|exact Hc2]. simpl. split; [reflexivity|]. eapply carries_enter; eauto.
+Qed.
+
+(* the reference semantics: a stack of (object index, store in force before its enter) *)
+Definition sstate := (gs * list sobj * list (nat * gs))%type.
+Definition sstep (s : sstate) (e : ev) : option sstate :=
+  let '(g, specs, stk) := s in
+  match e with
+  | New k a => match spec_new k a with Some sp => Some (g, specs ++ [sp], stk) | None => None end
+  | Enter i => match nth_error specs i with
+               | Some sp => match spec_parts sp g with Some g' => Some (g', specs, (i, g) :: stk) | None => None end
+               | None => None end
+  | Exit i | ExitExc i =>
+      match stk with
+      | (j, g0) :: stk' => if Nat.eqb i j then Some (g0, specs, stk') else None
+      | [] => None
+      end
+  end.
+Fixpoint srun (h : list ev) (s : sstate) : option sstate :=
+  match h with
+  | [] => Some s
+  | e :: r => match sstep s e with Some s' => srun r s' | None => None end
+  end.
+Lemma srun_app h1 h2 s : srun (h1 ++ h2) s = match srun h1 s with Some s' => srun h2 s' | None => None end.
+Proof. revert s; induction h1 as [|e r IH]; simpl; intros s; [reflexivity|]. destruct (sstep s e); auto. Qed.
+
+Definition news_ok (h : list ev) := forall k a, In (New k a) h -> args_ok k a = true.
+Definition good (specs : list sobj) (objs : list (list pobj)) := Forall2 carries_ps specs objs.
+
+Lemma good_nth specs objs i ps : good specs objs -> nth_error objs i = Some ps ->
+  exists sp, nth_error specs i = Some sp /\ carries_ps sp ps.
+Proof.
+  unfold good. intros H; revert i. induction H as [|sp0 ps0 specs' objs' H0 HF IH]; intros [|i] Hn; simpl in *; try discriminate.
+  - inversion Hn; subst. exists sp0; split; [reflexivity|exact H0].
+  - apply IH; exact Hn.
+Qed.
+Lemma good_replace specs objs i sp ps1 : good specs objs -> nth_error specs i = Some sp -> carries_ps sp ps1 ->
+  good specs (replace i ps1 objs).
+Proof.
+  unfold good. intros H; revert i. induction H as [|sp0 ps0 specs' objs' H0 HF IH]; intros [|i] Hn Hc; simpl in *; try discriminate.
+  - inversion Hn; subst. constructor; assumption.
+  - constructor; [exact H0|]. apply IH; assumption.
+Qed.
+Lemma Forall2_len {A B} (R : A -> B -> Prop) a b : Forall2 R a b -> length a = length b.
+Proof. induction 1; simpl; congruence. Qed.
+Lemma Forall2_app_split {A B} (R : A -> B -> Prop) a b c d :
+  length a = length c -> Forall2 R (a ++ b) (c ++ d) -> Forall2 R a c /\ Forall2 R b d.
+Proof.
+  revert c. induction a as [|x a IH]; intros [|y c] Hl H; simpl in *; try discriminate.
+  - split; [constructor|exact H].
+  - inversion H; subst. destruct (IH c) as [H1 H2]; [congruence|assumption|]. split; [constructor; assumption|exact H2].
+Qed.
+
+Lemma bal_refines h : bal h -> news_ok h -> forall g objs specs stk s',
+  wfobjs objs -> good specs objs -> run h (g, objs) = Some s' ->
+  exists ext spext, s' = (g, objs ++ ext) /\ srun h (g, specs, stk) = Some (g, specs ++ spext, stk) /\
+    good (specs ++ spext) (objs ++ ext) /\ wfobjs (objs ++ ext).
+Proof.
+  induction 1 as [|k a|h1 h2 H1 IH1 H2 IH2|i h Hb IH|i h Hb IH]; intros Hok g objs specs stk s' Hwf Hgood Hr.
+  - simpl in Hr. inversion Hr; subst. exists [], []. rewrite !app_nil_r. repeat split; auto.
+  - simpl in Hr. destruct (new k a g) as [ps|] eqn:En; [|discriminate]. inversion Hr; subst.
+    destruct (new_carries k a g ps (Hok k a (or_introl eq_refl)) En) as [sp [Hsp Hc]].
+    exists [ps], [sp]. simpl. rewrite Hsp. repeat split.
+    + apply Forall2_app; [exact Hgood|constructor; [exact Hc|constructor]].
+    + unfold wfobjs in *. apply Forall_app. split; [exact Hwf|]. constructor; [|constructor]. eapply new_nodup; eauto.
+  - rewrite run_app in Hr. destruct (run h1 (g, objs)) as [s1|] eqn:E1; [|discriminate].
+    assert (Hok1 : news_ok h1) by (intros k a Hin; apply (Hok k a); apply in_or_app; left; exact Hin).
+    assert (Hok2 : news_ok h2) by (intros k a Hin; apply (Hok k a); apply in_or_app; right; exact Hin).
+    destruct (IH1 Hok1 _ _ _ stk _ Hwf Hgood E1) as [ext1 [sx1 [Hs1 [Hsr1 [Hg1 Hw1]]]]]. subst s1.
+    destruct (IH2 Hok2 _ _ _ stk _ Hw1 Hg1 Hr) as [ext2 [sx2 [Hs2 [Hsr2 [Hg2 Hw2]]]]].
+    exists (ext1 ++ ext2), (sx1 ++ sx2). rewrite !app_assoc. repeat split; auto.
+    rewrite srun_app, Hsr1. exact Hsr2.
+  - assert (Hokh : news_ok h).
+    { intros k a Hin. apply (Hok k a). right. apply in_or_app; left; exact Hin. }
+    simpl in Hr.
+    destruct (nth_error objs i) as [ps|] eqn:En; [|discriminate].
+    destruct (enter_parts ps g) as [[g1 ps1]|] eqn:Ee; [|discriminate].
+    rewrite run_app in Hr.
+    assert (Hnd : NoDup (map fst ps)).
+    { unfold wfobjs in Hwf. rewrite Forall_forall in Hwf. apply Hwf. eapply nth_error_In; eauto. }
+    assert (Hwf1 : wfobjs (replace i ps1 objs)).
+    { apply wfobjs_replace; [exact Hwf|]. unfold enter_parts in Ee. rewrite (walk_classes _ _ _ _ _ Ee). exact Hnd. }
+    destruct (good_nth _ _ _ _ Hgood En) as [sp [Hnsp Hcar]].
+    destruct (enter_parts_spec _ _ Hcar _ _ _ Ee) as [Hspec Hcar1].
+    assert (Hgood1 : good specs (replace i ps1 objs)) by (eapply good_replace; eauto).
+    destruct (run h (g1, replace i ps1 objs)) as [s2|] eqn:E2; [|discriminate].
+    destruct (IH Hokh _ _ _ ((i, g) :: stk) _ Hwf1 Hgood1 E2) as [ext [sx [Hs2 [Hsr [Hg2 Hw2]]]]]. subst s2.
+    destruct (exit_restores i g objs ps g1 ps1 ext Hwf En Ee) as [Hx _].
+    cbn [run] in Hr. rewrite Hx in Hr. inversion Hr; subst.
+    assert (Hlen : length specs = length (replace i ps1 objs)).
+    { rewrite replace_length. eapply Forall2_len; exact Hgood. }
+    destruct (Forall2_app_split _ _ _ _ _ Hlen Hg2) as [_ Hgx].
+    exists ext, sx. repeat split.
+    + simpl. rewrite Hnsp, Hspec. rewrite srun_app, Hsr. simpl. rewrite Nat.eqb_refl. reflexivity.
+    + apply Forall2_app; assumption.
+    + unfold wfobjs in *. apply Forall_app. apply Forall_app in Hw2. tauto.
+  - assert (Hokh : news_ok h).
+    { intros k a Hin. apply (Hok k a). right. apply in_or_app; left; exact Hin. }
+    simpl in Hr.
+    destruct (nth_error objs i) as [ps|] eqn:En; [|discriminate].
+    destruct (enter_parts ps g) as [[g1 ps1]|] eqn:Ee; [|discriminate].
+    rewrite run_app in Hr.
+    assert (Hnd : NoDup (map fst ps)).
+    { unfold wfobjs in Hwf. rewrite Forall_forall in Hwf. apply Hwf. eapply nth_error_In; eauto. }
+    assert (Hwf1 : wfobjs (replace i ps1 objs)).
+    { apply wfobjs_replace; [exact Hwf|]. unfold enter_parts in Ee. rewrite (walk_classes _ _ _ _ _ Ee). exact Hnd. }
+    destruct (good_nth _ _ _ _ Hgood En) as [sp [Hnsp Hcar]].
+    destruct (enter_parts_spec _ _ Hcar _ _ _ Ee) as [Hspec Hcar1].
+    assert (Hgood1 : good specs (replace i ps1 objs)) by (eapply good_replace; eauto).
+    destruct (run h (g1, replace i ps1 objs)) as [s2|] eqn:E2; [|discriminate].
+    destruct (IH Hokh _ _ _ ((i, g) :: stk) _ Hwf1 Hgood1 E2) as [ext [sx [Hs2 [Hsr [Hg2 Hw2]]]]]. subst s2.
+    destruct (exit_restores i g objs ps g1 ps1 ext Hwf En Ee) as [_ Hx].
+    cbn [run] in Hr. rewrite Hx in Hr. inversion Hr; subst.
+    assert (Hlen : length specs = length (replace i ps1 objs)).
+    { rewrite replace_length. eapply Forall2_len; exact Hgood. }
+    destruct (Forall2_app_split _ _ _ _ _ Hlen Hg2) as [_ Hgx].
+    exists ext, sx. repeat split.
+    + simpl. rewrite Hnsp, Hspec. rewrite srun_app, Hsr. simpl. rewrite Nat.eqb_refl. reflexivity.
+    + apply Forall2_app; assumption.
+    + unfold wfobjs in *. apply Forall_app. apply Forall_app in Hw2. tauto.
+Qed.
+
+(* prefixes of well-nested histories: balanced pieces separated by enters that are still open at the end;
+   the second index lists the open objects, innermost first *)
+Inductive pre : list ev -> list nat -> Prop :=
+| pre_bal h : bal h -> pre h []
+| pre_open h1 i h2 st : pre h1 st -> bal h2 -> pre (h1 ++ Enter i :: h2) (i :: st).
+
+(* REFINEMENT: at EVERY point of a well-nested history (not only at its end) the stores of the model are those of
+   the reference stack semantics: inside a block every slot has the value given by the innermost open context
+   that addresses it (dtype contexts: only the slots whose argument was given), every other slot is as outside;
+   after an exit everything is as immediately before the matching enter. *)
+Theorem refines_spec_generic h st : pre h st -> news_ok h -> forall g objs specs s',
+  wfobjs objs -> good specs objs -> run h (g, objs) = Some s' ->
+  exists specs' stk', srun h (g, specs, []) = Some (fst s', specs', stk') /\ map fst stk' = st /\
+    good specs' (snd s') /\ wfobjs (snd s').
+Proof.
+  induction 1 as [h Hb|h1 i h2 st Hp IH Hb]; intros Hok g objs specs s' Hwf Hgood Hr.
+  - destruct (bal_refines h Hb Hok _ _ _ [] _ Hwf Hgood Hr) as [ext [sx [Hs [Hsr [Hg Hw]]]]]. subst s'.
+    exists (specs ++ sx), []. simpl. repeat split; auto.
+  - rewrite run_app in Hr. destruct (run h1 (g, objs)) as [[g1 objs1]|] eqn:E1; [|discriminate].
+    assert (Hok1 : news_ok h1) by (intros k a Hin; apply (Hok k a); apply in_or_app; left; exact Hin).
+    assert (Hok2 : news_ok h2) by (intros k a Hin; apply (Hok k a); apply in_or_app; right; right; exact Hin).
+    destruct (IH Hok1 _ _ _ _ Hwf Hgood E1) as [specs1 [stk1 [Hsr1 [Hst1 [Hg1 Hw1]]]]]. simpl in Hsr1, Hg1, Hw1.
+    simpl in Hr.
+    destruct (nth_error objs1 i) as [ps|] eqn:En; [|discriminate].
+    destruct (enter_parts ps g1) as [[g2 ps2]|] eqn:Ee; [|discriminate].
+    assert (Hnd : NoDup (map fst ps)).
+    { unfold wfobjs in Hw1. rewrite Forall_forall in Hw1. apply Hw1. eapply nth_error_In; eauto. }
+    assert (Hwf2 : wfobjs (replace i ps2 objs1)).
+    { apply wfobjs_replace; [exact Hw1|]. unfold enter_parts in Ee. rewrite (walk_classes _ _ _ _ _ Ee). exact Hnd. }
+    destruct (good_nth _ _ _ _ Hg1 En) as [sp [Hnsp Hcar]].
+    destruct (enter_parts_spec _ _ Hcar _ _ _ Ee) as [Hspec Hcar2].
+    assert (Hgood2 : good specs1 (replace i ps2 objs1)) by (eapply good_replace; eauto).
+    destruct (bal_refines h2 Hb Hok2 _ _ _ ((i, g1) :: stk1) _ Hwf2 Hgood2 Hr) as [ext [sx [Hs [Hsr [Hg Hw]]]]]. subst s'.
+    exists (specs1 ++ sx), ((i, g1) :: stk1). simpl. repeat split; auto.
+    + rewrite srun_app, Hsr1. simpl. rewrite Hnsp, Hspec. exact Hsr.
+    + f_equal. exact Hst1.
+Qed.
+
 (* NO CROSS-TALK: an event on an object touches only the slots of the classes of its parts *)
 Theorem no_cross_talk_generic g objs e g' objs' c :
   step (g, objs) e = Some (g', objs') ->
